@@ -718,8 +718,8 @@ func (c *c14Conc) checkHistories(tEnd int64, seen map[string]bool) {
 		}
 		return false
 	}
-	per := map[common.Hash][]c14Rec{}     // what the checker gets
-	orig := map[common.Hash][]c14Rec{}    // what was recorded (signatures, replay data)
+	per := map[common.Hash][]c14Rec{}  // what the checker gets
+	orig := map[common.Hash][]c14Rec{} // what was recorded (signatures, replay data)
 	opened := map[common.Hash]int64{}
 	for _, r := range all {
 		orig[r.hash] = append(orig[r.hash], r)
@@ -977,14 +977,14 @@ func TestVerifC14Conc(t *testing.T) {
 	}
 	rep := verifutil.NewReport()
 	defer rep.Write()
-	nRuns := verifutil.Scale(2, 30)
+	nRuns := verifutil.Scale(2, 24)
 	seen := map[string]bool{}
 	for i := 0; i < nRuns; i++ {
 		run := i
 		rep.Progress("C14conc run %d", run)
 		var progress int64
 		var abort int32
-		ok, dump, pnc, stack := c14Watch(&progress, c14Stall(), func() { c14ConcRun(rep, run, &progress, seen, &abort) })
+		ok, dump, pnc, stack := c14Watch(&progress, c14Stall(), &abort, func() { c14ConcRun(rep, run, &progress, seen, &abort) })
 		if pnc != nil {
 			rep.Violation("panic:"+verifutil.TopRepoFrame(stack), fmt.Sprintf("concurrent run %d: panic %v", run, pnc), map[string]interface{}{"stack": verifutil.Trunc(stack, 4000)})
 			continue
@@ -994,19 +994,15 @@ func TestVerifC14Conc(t *testing.T) {
 		}
 		at := atomic.LoadInt64(&progress)
 		fmt.Printf("C14: concurrent run %d stalled (progress counter %d); goroutines:\n%s\n", run, at, dump)
-		// goroutines of the abandoned run that are not blocked wind down before the retry
-		atomic.StoreInt32(&abort, 1)
-		time.Sleep(3 * time.Second)
 		var progress2 int64
 		var abort2 int32
-		ok2, dump2, _, _ := c14Watch(&progress2, c14Stall(), func() { c14ConcRun(rep, run, &progress2, map[string]bool{}, &abort2) })
-		atomic.StoreInt32(&abort2, 1)
+		ok2, dump2, _, _ := c14Watch(&progress2, c14Stall(), &abort2, func() { c14ConcRun(rep, run, &progress2, map[string]bool{}, &abort2) })
 		if !ok2 {
 			rep.Violation("deadlock", fmt.Sprintf("concurrent run %d: no submitter operation and no block completed for %v (progress counter %d), and again (counter %d) when the run was repeated", run, c14Stall(), at, atomic.LoadInt64(&progress2)),
 				map[string]interface{}{"run": run, "mempool_goroutines_first": c14MempoolFrames(dump), "mempool_goroutines_retry": c14MempoolFrames(dump2)})
 		} else {
 			rep.Inconcl("concurrent run %d stalled for %v but the stall did not reproduce", run, c14Stall())
 		}
-		return // abandoned goroutines may still hold the simulator's globals
+		return // an abandoned goroutine may still hold the simulator's globals
 	}
 }
